@@ -6,6 +6,7 @@ package tcplistener
 
 import (
 	"io"
+	"strings"
 
 	"github.com/relex/slog-agent/zz_verif/sym"
 )
@@ -133,6 +134,39 @@ func VerifC08_Fragmentation() {
 			}
 		}
 	}
+	sym.Reach("compared")
+}
+
+// VerifC08_FragmentationProductionShape: the buffer shape the listener uses
+// (four times the record limit; here 32 / 8) and a multi-line record between two
+// and three times the limit (19 bytes), followed by a further record, the
+// whole stream leaving room for one more record of the limit: every pair of
+// cuts gives the records of the uncut stream (forced emission of over-long
+// records must not start while there is still room for a whole record). The
+// line structure is fixed, four payload bytes are symbolic.
+//
+//verif:reach compared
+//verif:paths 100000
+func VerifC08_FragmentationProductionShape() {
+	x := sym.Bytes("payload", 4, 4)
+	for i := range x {
+		sym.Assume(x[i] != '\n')
+	}
+	var s []byte
+	s = append(s, '<', '>', x[0], '.', '.', '.', '.', '.', '\n') // line 1: 8 bytes
+	s = append(s, ' ', x[1], '.', '.', '.', '.', '.', '\n')      // line 2: 7 bytes (record so far 16)
+	s = append(s, ' ', x[2], '\n')                               // line 3: 2 bytes (record 19)
+	s = append(s, '<', '>', x[3], '\n')                          // next record; 24 bytes in all
+	n := len(s)
+	c1 := sym.Choice("cut1", n+1)
+	c2 := sym.Choice("cut2", n+1)
+	sym.Assume(c1 <= c2)
+	whole := verifRun([][]byte{append([]byte{}, s...)}, nil, 32, 8, verifToyStart)
+	split := verifRun([][]byte{append([]byte{}, s[:c1]...), append([]byte{}, s[c1:c2]...), append([]byte{}, s[c2:]...)}, nil, 32, 8, verifToyStart)
+	sym.Observe("whole", strings.Join(whole, "|"))
+	sym.Observe("split", strings.Join(split, "|"))
+	verifSameLog(whole, split, "production shape, fragmented vs whole")
+	verifSameLog(verifFilter(whole), verifRefFrame(s), "production shape, whole vs reference framer")
 	sym.Reach("compared")
 }
 
